@@ -226,8 +226,9 @@ def case_passthrough(rng: Any, ctx: Ctx, index: int) -> None:
     LOG.case_key(f'passthrough:nside{nside}', True)
 
     def judge() -> None:
+        import jax_healpy as jhp
         got = np.asarray(land.world2index(jnp.asarray(theta), jnp.asarray(phi)))
-        pix = np.asarray(land.world2pixel(jnp.asarray(theta), jnp.asarray(phi))[0])
+        pix = np.asarray(jhp.ang2pix(nside, jnp.asarray(theta), jnp.asarray(phi)))     # the ring pixel number itself
         LOG.evaluated('C17.passthrough', n)
         LOG.count('C17.passthrough.nside', nside, n)
         if not np.array_equal(got.astype(np.int64), pix.astype(np.int64)):
@@ -259,6 +260,25 @@ def case_coverage(rng: Any, ctx: Ctx, index: int) -> None:
         if int(cov.sum()) != n:
             LOG.violation('C17', 'C17.coverage', 'get_coverage/sum', f'sum {int(cov.sum())} != {n} samples')
     guarded('C17.coverage', judge)
+
+    if index % 4 == 0:
+        # a landscape with a frequency axis: the coverage has the landscape's shape and still sums to the number of samples
+        from furax.landscapes import FrequencyLandscape
+        nf = int(rng.integers(1, 4))
+        fl = FrequencyLandscape(nside, jnp.arange(1.0, nf + 1.0), 'I', np.float32)
+
+        def judge_freq() -> None:
+            LOG.evaluated('C17.coverage')
+            LOG.count('C17.coverage.frequency', nf)
+            try:
+                cov = np.asarray(fl.get_coverage(samp))
+            except Exception as exc:  # noqa: BLE001
+                LOG.violation('C17', 'C17.coverage', f'get_coverage/frequency-landscape/raises-{type(exc).__name__}', str(exc)[:120], nfreq=nf, nside=nside)
+                return
+            if cov.shape != (nf, 12 * nside * nside) or int(cov.sum()) != n or len(fl) != nf * 12 * nside * nside:
+                LOG.violation('C17', 'C17.coverage', 'get_coverage/frequency-landscape/shape-or-sum', f'shape {cov.shape}, sum {int(cov.sum())} for {n} samples, len {len(fl)}',
+                              nfreq=nf, nside=nside)
+        guarded('C17.coverage', judge_freq)
 
 
 def case_nonpow2(rng: Any, ctx: Ctx, index: int) -> None:
